@@ -101,7 +101,10 @@ func JsonListReader(list []interface{}) node.Node {
 			if r.First {
 				keyFields := r.Meta.KeyMeta()
 				for i := 0; i < len(list); i++ {
-					candidate := list[i].(map[string]interface{})
+					candidate, isObject := list[i].(map[string]interface{})
+					if !isObject {
+						return nil, nil, fmt.Errorf("expected list item %d of %s to be an object", i, r.Meta.Ident())
+					}
 					if jsonKeyMatches(keyFields, candidate, key) {
 						return JsonContainerReader(candidate), r.Key, nil
 					}
@@ -109,7 +112,10 @@ func JsonListReader(list []interface{}) node.Node {
 			}
 		} else {
 			if r.Row < len(list) {
-				container := list[r.Row].(map[string]interface{})
+				container, isObject := list[r.Row].(map[string]interface{})
+				if !isObject {
+					return nil, nil, fmt.Errorf("expected list item %d of %s to be an object", r.Row, r.Meta.Ident())
+				}
 				if len(r.Meta.KeyMeta()) > 0 {
 					keyData := make([]interface{}, len(r.Meta.KeyMeta()))
 					for i, kmeta := range r.Meta.KeyMeta() {
@@ -166,11 +172,19 @@ func JsonContainerReader(container map[string]interface{}) node.Node {
 		if r.New {
 			panic("cannot write to JSON reader")
 		}
-		if value, found := fqkGet(r.Meta, container); found {
+		if value, found := fqkGet(r.Meta, container); found && value != nil {
 			if meta.IsList(r.Meta) {
-				return JsonListReader(value.([]interface{})), nil
+				list, isArray := value.([]interface{})
+				if !isArray {
+					return nil, fmt.Errorf("expected %s to be an array", r.Meta.Ident())
+				}
+				return JsonListReader(list), nil
 			}
-			return JsonContainerReader(value.(map[string]interface{})), nil
+			object, isObject := value.(map[string]interface{})
+			if !isObject {
+				return nil, fmt.Errorf("expected %s to be an object", r.Meta.Ident())
+			}
+			return JsonContainerReader(object), nil
 		}
 		return
 	}
